@@ -32,10 +32,15 @@ EXPLANATION = (
     'outside options.py); R5 the decision tables of the validate_value family equal the reference conditions on every world '
     'of their atoms; R6 DEFAULT_DEPENDENTS equals the documented buildtype table, the expansion runs exactly when the value '
     'changed to a non-custom buildtype and the command line puts buildtype first; R7 the prefix-dependent directory defaults '
-    '(hard reset, reset on prefix change, initial default) follow the reference tables; R8 an option is linked to a parent (and so may report the parent\'s value) only under an exact '
+    '(hard reset, reset on prefix change, initial default) follow the reference tables; R9 a value taken out of pending_options is applied through set_option unless it is the None sentinel of the pop; R8 also: storing into an option object always switches its yielding off; R8 an option is linked to a parent (and so may report the parent\'s value) only under an exact '
     'class identity test, because the option classes subclass one another, and .yielding is only ever False or "parent linked". '
     'Does NOT decide which value wins for concrete option sets (run-time), the directory values for concrete prefixes, '
-    'per-machine canonicalisation for concrete cross files, nor the behaviour of set_user_option for unknown/pending options.')
+    'per-machine canonicalisation for concrete cross files, nor the behaviour of set_user_option for unknown/pending options. '
+    'Observed on the tree and NOT decided (no exact structural clause, or documented behaviour): buildtype listed after debug/optimization in '
+    'project default_options or a machine file overwrites the explicit values (only the command line is reordered); a yielding option reports a '
+    'same-class parent value outside its own choices/range (documented: get_option returns the superproject value); sanitize_prefix strips one trailing '
+    'slash only (string semantics); a prefix change outside the first invocation does not reset the dependants (deliberate guard, pinned); '
+    'a guard moved from a caller into a non-private callee (e.g. hard_reset_from_prefix(None) returning early) is undecided.')
 ASSUMPTIONS = [
     'asserts are no-ops (python -O semantics); T.cast is the identity',
     'the same canonical expression evaluated twice on one path between which the analysed function stores nothing has the same value',
@@ -266,7 +271,7 @@ def _first_handle_prefix(ctx: RuleCtx, mod: T.Any) -> T.List[int]:
             for s, txt in cand.items():
                 if txt == t:
                     return ('reset', TOP_SRC[s])
-        return ('other', tuple(norm(c) for c in calls))
+        raise Undecided(f'{qn}: reset call(s) of unknown form: {[norm(c) for c in calls]}')
     S.compare(ctx, mod, qn, fn, tab, sem, view, ref, got, list(sem),
               what='documented precedence (command line over machine file over project default_options; last non-None candidate wins)')
     summaries = set()
@@ -514,7 +519,7 @@ def r2(ctx: RuleCtx) -> None:
             continue
         if any(s not in SUB_SRC for s in srcs):
             raise Undecided(f'{lq}: unknown source')
-        pops = any(f.kind == 'call' and is_call(f.node, 'pop') for r in rows for f in visible(r))
+        pops = any((f.kind == 'call' and is_call(f.node, 'pop')) or f.kind == 'del' for r in rows for f in visible(r))
         raises = any(r.outcome[0] == 'raise' for r in rows)
 
         def classify(f: S.Fx) -> T.Optional[str]:
@@ -526,15 +531,20 @@ def r2(ctx: RuleCtx) -> None:
                 return 'write?' + f.text
             if f.kind == 'call' and is_call(f.node, 'pop') and norm(f.node.func.value) == opts:
                 return 'pop-rekeyed' if f.text == f'{opts}.pop({rekey}, None)' else 'pop?' + f.text
+            if f.kind == 'del' and isinstance(f.node, ast.Subscript) and norm(f.node.value) == opts:
+                return 'pop-rekeyed' if norm(f.node.slice) == rekey else 'pop?' + f.text
             return None
 
         def got(r: tables.Row, lq: str = lq) -> T.Any:
             return tokens(lq, r, classify)
         if pops:
             mode = 'pop'
-            sem = {is_none: 'none', projopt: 'top_project_option'}
+            present = A(f'{rekey} in {opts}')
+            sem = {is_none: 'none', projopt: 'top_project_option', present: 'present'}
 
             def ref(v: T.Dict[str, bool]) -> T.Any:
+                if 'present' in v and not v['present']:
+                    return None      # nothing to remove: pop(k, None) and a guarded del agree
                 return ('pop-rekeyed',) if v['none'] and not v['top_project_option'] else ()
             desc = 'reference (a global key that is not a top-level project option removes the re-keyed own default; nothing else)'
         elif raises:
@@ -550,12 +560,14 @@ def r2(ctx: RuleCtx) -> None:
             desc = 'reference (own-qualified key rejected, unqualified key re-keyed to the subproject, foreign key kept)'
         else:
             mode = 'write-qualified'
-            sem = {is_sub: 'own'}
+            sem = {is_sub: 'own', is_none: 'none'}
 
             def ref(v: T.Dict[str, bool]) -> T.Any:
+                if v['own'] and v.get('none'):
+                    return None   # infeasible: the subproject name is not None
                 return ('write',) if v['own'] else ()
             desc = 'reference (only keys qualified with this subproject are written)'
-        S.compare(ctx, mod, lq, fn, tab, sem, lambda w, sem=sem: {k: w[a] for a, k in sem.items()}, ref, got, list(sem), what=desc)
+        S.compare(ctx, mod, lq, fn, tab, sem, lambda w, sem=sem: {k: w[a] for a, k in sem.items() if a in w}, ref, got, [a for a in sem if sem[a] != 'present'], what=desc)
         events.extend((SUB_SRC[s], mode) for s in srcs)
     ctx.floor('merge loops of the subproject initialiser', len(loops), 3)
     if not merged:
@@ -667,7 +679,7 @@ class SetOption:
         self.mod = ctx.repo.module(OPT)
         self.qn = 'OptionStore.set_option'
         self.fn = self.mod.func(self.qn)
-        stmts = S.prepare(self.fn.body)
+        stmts = S.prepare(self.fn.body, self.fn)
         idx = [i for i, st in enumerate(stmts) if any(is_call(c, 'validate_value') for c in walk_no_nested(st))]
         if not idx:
             raise NoValidation(f'{self.qn}: no call of validate_value at the top level of the function')
@@ -778,6 +790,10 @@ def r4(ctx: RuleCtx) -> None:
                 ok = norm(fx.node.func.value) == so.obj and len(fx.node.args) == 1 and norm(fx.node.args[0]) == so.NV
                 if not ok:
                     ctx.violation(mod, so.qn, fx.src, f'{fx.text}: set_value must be applied to {so.obj} with the validated value {so.NV}', fx.src)
+        for c in _calls_in_conditions(r, 'set_value'):
+            nset += 1
+            if not (norm(c.func.value) == so.obj and len(c.args) == 1 and norm(c.args[0]) == so.NV):  # type: ignore[attr-defined]
+                ctx.violation(mod, so.qn, norm(c), f'{norm(c)} (in a condition): set_value must be applied to {so.obj} with the validated value {so.NV}', so.fn)
     if naug:
         ctx.ok(f'{so.qn}: augments[{keytxt}] receives {so.NV} on {naug} paths')
     if nset:
@@ -789,6 +805,12 @@ def r4(ctx: RuleCtx) -> None:
         if s.kind == 'augments' and s.qual != so.qn:
             if s.func is None:
                 raise Undecided(f'{OPT}: augments written at module level')
+            if s.func.name.startswith('_') and not s.func.name.startswith('__'):
+                callers = {q for q, f in mod.funcs().items() if any(is_call(c, s.func.name) for c in walk_no_nested(f))}
+                if callers and callers <= {so.qn}:
+                    ctx.note(f'{s.qual}: private helper called only from {so.qn}; its stores are judged there after inlining')
+                    continue
+                raise Undecided(f'{OPT}: {s.qual} writes augments and is called from {sorted(callers)}; only call sites inside set_option are followed')
             for r in S.Sym(s.func).rows():
                 for fx in r.fx:
                     if fx.kind in ('store', 'augstore') and isinstance(fx.node[0], ast.Subscript) and norm(fx.node[0].value) == 'self.augments':
@@ -802,6 +824,20 @@ def r4(ctx: RuleCtx) -> None:
 
 
 # ---------------------------------------------------------------------------
+def _calls_in_conditions(r: S.SRow, name: str) -> T.List[ast.Call]:
+    """calls of `name` that are evaluated as (part of) a branch condition on this path"""
+    out: T.List[ast.Call] = []
+    for a in r.conds:
+        for x in a.args:
+            for t in (x if isinstance(x, tuple) else (x,)):
+                try:
+                    e = ast.parse(str(t), mode='eval').body
+                except SyntaxError:
+                    continue
+                out.extend(c for c in ast.walk(e) if is_call(c, name))
+    return out
+
+
 def r5(ctx: RuleCtx) -> None:
     _signatures(ctx)
     c07_val.run(ctx)
@@ -1024,53 +1060,93 @@ def _changed_semantics(ctx: RuleCtx, so: SetOption) -> None:
     """the accumulator returned by set_option is updated once with `old != validated new`, old being read before the write"""
     mod = so.mod
     inopt = A('ARG1 in self.options')
-    known_old = {True: f'{so.obj}.value', False: f'self.augments.get(ARG1, {so.obj}.value)'}
+    inaug = A('ARG1 in self.augments')
     n = 0
+
+    def old_ok(r: S.SRow, o: str) -> T.Optional[bool]:
+        """is `o` the place the value lived in before the write on this path?  None = unknown form"""
+        own, aug_get, aug_item = f'{so.obj}.value', f'self.augments.get(ARG1, {so.obj}.value)', 'self.augments[ARG1]'
+        if o not in (own, aug_get, aug_item):
+            return None
+        if r.conds[inopt]:
+            return o == own
+        if o == aug_get:
+            return True
+        if inaug not in r.conds:
+            return False if o == own else None
+        return (o == aug_item) if r.conds[inaug] else (o == own)
+
     for r in so.tail:
-        if r.outcome[0] == 'raise' and not any(f.kind == 'opaque' for f in r.fx):
-            continue
         ups = [f for f in r.fx if f.kind == 'opaque']
+        if r.outcome[0] == 'raise' and not ups:
+            continue
         first_test = next((i for i, t in enumerate(r.trace) if t[0] == 'cond' and t[1] == A(so.changed)), None)
         if first_test is not None and any(t[0] == 'fx' and t[1].kind == 'opaque' for t in r.trace[first_test:]):
             raise Undecided(f'{so.qn}: {so.changed} is updated after it has been tested')
-        if len(ups) != 1:
-            raise Undecided(f'{so.qn}: {len(ups)} updates of {so.changed} after the validation on a path: {[f.text for f in ups]}')
-        u = ups[0].node[1]
-        if isinstance(u, ast.BinOp) and isinstance(u.op, ast.BitOr):
-            parts = [u.left, u.right]
-        elif isinstance(u, ast.BoolOp) and isinstance(u.op, ast.Or) and len(u.values) == 2:
-            parts = list(u.values)
+        if inopt not in r.conds:
+            raise Undecided(f'{so.qn}: a path does not test whether the key has its own option object: {r!r}')
+        # the comparison that feeds the flag: `changed |= a != b` / `changed = changed or a != b` / `if a != b: changed = True`
+        sides: T.Optional[T.List[ast.AST]] = None
+        src: T.Any = so.fn
+        guards = [(a, v) for a, v in r.conds.items() if a.kind == 'cmp' and a.args[0] == 'eq' and so.NV in a.args[1:] and not any(tables._is_const_text(x) for x in a.args[1:])]
+        if len(ups) == 1 and not (isinstance(ups[0].node[1], ast.Constant)):
+            u = ups[0].node[1]
+            src = ups[0].src
+            if isinstance(u, ast.BinOp) and isinstance(u.op, ast.BitOr):
+                parts = [u.left, u.right]
+            elif isinstance(u, ast.BoolOp) and isinstance(u.op, ast.Or) and len(u.values) == 2:
+                parts = list(u.values)
+            else:
+                raise Undecided(f'{so.qn}: unknown form of the change-flag update: {ups[0].text}')
+            rest_ = [x for x in parts if norm(x) != so.changed]
+            c = rest_[0] if len(rest_) == 1 else None
+            if not (isinstance(c, ast.Compare) and len(c.ops) == 1 and isinstance(c.ops[0], ast.NotEq)):
+                raise Undecided(f'{so.qn}: unknown form of the change-flag update: {ups[0].text}')
+            sides = [c.left, c.comparators[0]]
+        elif len(guards) == 1 and ((len(ups) == 1 and isinstance(ups[0].node[1], ast.Constant) and ups[0].node[1].value is True and guards[0][1] is False)
+                                   or (not ups and guards[0][1] is True)):
+            a = guards[0][0]
+            sides = [ast.parse(a.args[1], mode='eval').body, ast.parse(a.args[2], mode='eval').body]
+            src = ups[0].src if ups else so.fn
+        elif len(guards) == 1 and ((len(ups) == 1 and isinstance(ups[0].node[1], ast.Constant) and ups[0].node[1].value is True and guards[0][1] is True)
+                                   or (not ups and guards[0][1] is False)):
+            ctx.violation(mod, so.qn, ups[0].src if ups else f'{so.changed} not updated', f'the change flag is set exactly when {guards[0][0]!r} holds, i.e. when the value did NOT change '
+                          f'(and left alone when it differs)', ups[0].src if ups else so.fn, path=repr(r))
+            return
         else:
-            raise Undecided(f'{so.qn}: unknown form of the change-flag update: {ups[0].text}')
-        rest_ = [x for x in parts if norm(x) != so.changed]
-        c = rest_[0] if len(rest_) == 1 else None
-        if not (isinstance(c, ast.Compare) and len(c.ops) == 1 and isinstance(c.ops[0], ast.NotEq)) or inopt not in r.conds:
-            raise Undecided(f'{so.qn}: unknown form of the change-flag update: {ups[0].text}')
-        sides = [c.left, c.comparators[0]]
+            raise Undecided(f'{so.qn}: updates of {so.changed} after the validation of unknown form: {[f.text for f in ups]}')
         new = [x for x in sides if norm(x) == so.NV]
         old = [x for x in sides if norm(x) != so.NV]
         n += 1
         why = None
         if len(new) != 1:
             if any('RAW' in names_of(x) and not _contains_call(x, 'validate_value') for x in sides):
-                why = f'it compares {norm(c)}: the unvalidated input instead of the validated value {so.NV}'
+                why = f'it compares {" != ".join(norm(x) for x in sides)}: the unvalidated input instead of the validated value {so.NV}'
             else:
-                raise Undecided(f'{so.qn}: the change-flag update {ups[0].text} does not mention the validated value')
+                raise Undecided(f'{so.qn}: the change-flag update does not mention the validated value')
         else:
             o = norm(old[0])
-            if o not in known_old.values():
+            ok = old_ok(r, o)
+            if ok is None:
                 raise Undecided(f'{so.qn}: previous value of unknown form: {o}')
-            let_i = next((i for i, t in enumerate(r.trace) if t[0] == 'fx' and t[1].kind == 'let' and t[1].node[1] is old[0]), None)
-            wr_i = next((i for i, t in enumerate(r.trace) if t[0] == 'fx' and ((t[1].kind == 'call' and is_call(t[1].node, 'set_value')) or
-                                                                            (t[1].kind == 'store' and norm(t[1].node[0]).startswith('self.augments[')))), None)
-            if o != known_old[r.conds[inopt]]:
-                why = f'the previous value is read from {o}, but on this path the value lives in {known_old[r.conds[inopt]]}'
+
+            def reads(t: T.Tuple[str, T.Any, T.Any]) -> bool:
+                return t[0] == 'fx' and t[1].kind == 'let' and norm(t[1].node[1]) == o
+
+            def writes(t: T.Tuple[str, T.Any, T.Any]) -> bool:
+                if t[0] == 'cond':
+                    return 'set_value(' in repr(t[1])
+                return (t[1].kind == 'call' and is_call(t[1].node, 'set_value')) or (t[1].kind == 'store' and norm(t[1].node[0]).startswith('self.augments['))
+            let_i = next((i for i, t in enumerate(r.trace) if reads(t)), None)
+            wr_i = next((i for i, t in enumerate(r.trace) if writes(t)), None)
+            if not ok:
+                why = f'the previous value is read from {o}, which is not where the value lives on this path'
             elif let_i is None or wr_i is None:
                 raise Undecided(f'{so.qn}: cannot order the read of the previous value and the write')
             elif let_i > wr_i:
                 why = f'the previous value {o} is read after the new value has been written: the flag is always False'
         if why:
-            ctx.violation(mod, so.qn, ups[0].src, f'the change flag is not `previous value != validated new value`: {why}', ups[0].src, path=repr(r))
+            ctx.violation(mod, so.qn, src, f'the change flag is not `previous value != validated new value`: {why}', src if isinstance(src, ast.AST) else so.fn, path=repr(r))
             return
     ctx.floor('paths updating the change flag', n, 2)
     ctx.ok(f'{so.qn}: the change flag is `previous value != validated value`, the previous value being read before the write ({n} paths)')
@@ -1121,14 +1197,22 @@ def r7(ctx: RuleCtx) -> None:
         raise Undecided(f'{qn}: effects {[x.text if k == "fx" else k for k, x in kinds]} are not "one loop over the table, then the prefix itself"')
     else:
         loop, last = kinds[0][1], kinds[1][1]
-        if norm(loop.iter) != f'{TABLE}.items()':
+        if norm(loop.iter) not in (f'{TABLE}.items()', TABLE, f'{TABLE}.keys()'):
             raise Undecided(f'{qn}: the loop iterates {short(loop.iter)}, not the table {TABLE} that prefixed_default reads')
-        ctx.ok(f'{qn}: iterates {TABLE}.items()')
-        tab = S.to_table(loop_rows(sym, loop), qn + ':loop')
+        ctx.ok(f'{qn}: iterates {short(loop.iter)}')
+        lrows = loop_rows(sym, loop)
+        tab = S.to_table(lrows, qn + ':loop')
         mapped, rawmapped = A(f'{PFX} in VAL'), A('ARG1 in VAL')
-        S.compare(ctx, mod, qn + ' loop', fn, tab, {mapped: 'sanitised prefix has a mapped value', rawmapped: 'unsanitised prefix has a mapped value'}, lambda w: w[mapped],
-                  lambda hit: (P(f'{O}.set_value(VAL[{PFX}])'),) if hit else (P(f'{O}.set_value({O}.default)'),), _set_value_calls, [mapped],
-                  what='reference (mapping hit for the sanitised prefix -> mapped value, else the declared default)')
+        delegated = P(f'{O}.set_value(prefixed_default({O}, KEY, {PFX}))')
+        texts = {tuple(f.text for f in visible(r)) for r in lrows if r.outcome[0] not in ('raise',)}
+        if texts == {(delegated,)} and not tab.atoms():
+            ctx.ok(f'{qn} loop: each dependant receives prefixed_default(option, key, sanitised prefix), the lookup checked below')
+        elif texts == {(P(f'{O}.set_value(prefixed_default({O}, KEY, ARG1))'),)} and not tab.atoms():
+            ctx.violation(mod, qn, lrows[0].fx[-1].src, 'the dependants are looked up with the unsanitised prefix: prefixed_default(option, key, prefix) before sanitize_prefix', lrows[0].fx[-1].src)
+        else:
+            S.compare(ctx, mod, qn + ' loop', fn, tab, {mapped: 'sanitised prefix has a mapped value', rawmapped: 'unsanitised prefix has a mapped value'}, lambda w: w[mapped],
+                    lambda hit: (P(f'{O}.set_value(VAL[{PFX}])'),) if hit else (P(f'{O}.set_value({O}.default)'),), _set_value_calls, [mapped],
+                    what='reference (mapping hit for the sanitised prefix -> mapped value, else the declared default)')
         if last.kind == 'call' and last.text == set_prefix:
             ctx.ok(f'{qn}: the sanitised prefix itself is set last')
         elif last.kind == 'call' and last.text == P("self.options[OptionKey('prefix')].set_value(ARG1)"):
@@ -1167,23 +1251,54 @@ def r7(ctx: RuleCtx) -> None:
     rows = S.Sym(fn, handlers=True).rows()
     normal = [r for r in rows if not any(f.kind == 'except' for f in r.fx)]
     handled = [r for r in rows if any(f.kind == 'except' for f in r.fx)]
-    if len(normal) != 1 or normal[0].outcome[0] != 'return' or not handled:
-        raise Undecided(f'{qn}: not of the form try: return <table lookup> except KeyError: return <default>: {[repr(r) for r in rows]}')
-    v = normal[0].value
-    if not (isinstance(v, ast.Subscript) and isinstance(v.value, ast.Subscript) and norm(v.value.value) == TABLE):
-        raise Undecided(f'{qn}: lookup of unknown form: {short(v)}')
-    bad_lookup = (norm(v.value.slice), norm(v.slice)) != ('ARG2', 'ARG3')
-    bad_handler = None
-    for r in handled:
-        if 'KeyError' not in [x for f in r.fx if f.kind == 'except' for x in re.findall(r'\w+', f.text)]:
-            raise Undecided(f'{qn}: handler of unknown form: {r!r}')
-        hv = r.value
-        if r.outcome[0] != 'return' or not (isinstance(hv, ast.Attribute) and norm(hv.value) == 'ARG1'):
-            raise Undecided(f'{qn}: fallback of unknown form: {r.outcome}')
-        if hv.attr != 'default':
-            bad_handler = r
-    ctx.require(not bad_lookup and bad_handler is None, f'{qn}: mapped value for (option, prefix), else the declared default', mod, qn, v if bad_lookup else fn,
-                (f'the lookup is {norm(v)}: not {TABLE}[name][prefix]' if bad_lookup else f'without a mapped value it returns {bad_handler.outcome[1] if bad_handler else ""}, not the declared default'), fn)
+    lookup, dflt = f'{TABLE}[ARG2][ARG3]', 'ARG1.default'
+
+    def value_kind(r: S.SRow) -> str:
+        if r.outcome[0] != 'return':
+            raise Undecided(f'{qn}: path that does not return: {r!r}')
+        v = r.value
+        t = norm(v)
+        if t == lookup:
+            return 'mapped'
+        if t == dflt:
+            return 'default'
+        if t in (P(f'{TABLE}.get(ARG2, {{}}).get(ARG3, ARG1.default)'), P(f'{TABLE}[ARG2].get(ARG3, ARG1.default)')):
+            return 'mapped-or-default'
+        if isinstance(v, ast.Subscript) and isinstance(v.value, ast.Subscript) and norm(v.value.value) == TABLE:
+            return 'wrong lookup ' + t
+        if isinstance(v, ast.Attribute) and norm(v.value) == 'ARG1':
+            return 'wrong fallback ' + t
+        raise Undecided(f'{qn}: result of unknown form: {t}')
+    if handled:
+        if len(normal) != 1:
+            raise Undecided(f'{qn}: not of the form try: return <table lookup> except KeyError: return <default>: {[repr(r) for r in rows]}')
+        for r in handled:
+            if 'KeyError' not in [x for f in r.fx if f.kind == 'except' for x in re.findall(r'\w+', f.text)]:
+                raise Undecided(f'{qn}: handler of unknown form: {r!r}')
+        kinds_ = [value_kind(normal[0])] + [value_kind(r) for r in handled]
+        okk = kinds_[0] == 'mapped' and all(k == 'default' for k in kinds_[1:])
+        ctx.require(okk, f'{qn}: mapped value for (option, prefix), else the declared default', mod, qn, normal[0].value if kinds_[0] != 'mapped' else fn,
+                    f'prefixed_default returns {kinds_[0]} and on KeyError {kinds_[1:]}; reference: {lookup}, else the declared default', fn)
+    else:
+        tabp = S.to_table(rows, qn)
+        has_opt, has_pfx = A(f'ARG2 in {TABLE}'), A(f'ARG3 in {TABLE}[ARG2]')
+
+        def refp(v: T.Any) -> T.Any:
+            return 'mapped' if v else 'default'
+
+        def gotp(r: tables.Row) -> T.Any:
+            k = value_kind(r.srow)  # type: ignore[attr-defined]
+            if k == 'mapped-or-default':
+                if r.conds:
+                    raise Undecided(f'{qn}: mixed lookup forms')
+                return None
+            return k
+        if len(rows) == 1 and not rows[0].conds and value_kind(rows[0]) == 'mapped-or-default':
+            ctx.ok(f'{qn}: mapped value for (option, prefix), else the declared default (dict.get chain)')
+        else:
+            S.compare(ctx, mod, qn, fn, tabp, {has_opt: 'option has prefix-dependent defaults', has_pfx: 'prefix has a mapped value'},
+                      lambda w: None if (w.get(has_pfx) and not w.get(has_opt, True)) else bool(w.get(has_opt, True) and w.get(has_pfx)), refp, gotp, [has_opt, has_pfx],
+                      what='reference (mapped value when both the option and the prefix are in the table, else the declared default)')
     qn = 'OptionStore.add_builtin_option'
     fn = mod.func(qn)
     rows = S.Sym(fn).rows()
@@ -1227,7 +1342,7 @@ def r7(ctx: RuleCtx) -> None:
     on, off = _guard_rows(ctx, mod, so.qn, so.tail, resets, {isp: True, first: True, changed: True}, 'the reset of prefix-dependent options', names)
     ctx.floor('paths resetting prefix-dependent options', on, 1)
     ctx.ok(f'{so.qn}: reset_prefixed_options runs exactly for a changed prefix on the first invocation ({on} paths with, {off} without)')
-    olds = (f'{so.obj}.value', f'self.augments.get(ARG1, {so.obj}.value)')
+    olds = (f'{so.obj}.value', f'self.augments.get(ARG1, {so.obj}.value)', 'self.augments[ARG1]')
     for r in so.tail:
         for f in resets(r):
             a = call_args(f.node, ['old_prefix', 'new_prefix'])
@@ -1257,10 +1372,19 @@ def _only_sanitised(e: ast.AST) -> bool:
 def _dir_table_name(ctx: RuleCtx, mod: T.Any) -> str:
     """the table of prefix-dependent defaults, found by role: what prefixed_default subscripts with (option, prefix)"""
     fn = mod.func('prefixed_default')
-    for r in S.Sym(fn).rows():
-        v = r.value
-        if r.outcome[0] == 'return' and isinstance(v, ast.Subscript) and isinstance(v.value, ast.Subscript) and isinstance(v.value.value, ast.Name):
-            return v.value.value.id
+    names = set()
+    for r in S.Sym(fn, handlers=True).rows():
+        if r.outcome[0] == 'return' and r.value is not None:
+            names |= {n.id for n in ast.walk(r.value) if isinstance(n, ast.Name) and mod.has_assign(n.id)}
+        for a in r.conds:
+            for x in a.args:
+                if isinstance(x, str):
+                    try:
+                        names |= {n.id for n in ast.walk(ast.parse(x, mode='eval')) if isinstance(n, ast.Name) and mod.has_assign(n.id)}
+                    except SyntaxError:
+                        pass
+    if len(names) == 1:
+        return next(iter(names))
     raise Undecided('prefixed_default: the table of prefix-dependent defaults was not recognised')
 
 
@@ -1419,6 +1543,28 @@ def r8(ctx: RuleCtx) -> None:
                 else:
                     raise Undecided(f'{q}: {fx.text}: value of unknown form stored into .yielding')
     ctx.floor('stores into .yielding', ny, 2)
+    # an explicitly set option stops yielding: every path of set_option that stores into the option object itself
+    so = _set_option(ctx)
+    inopt = A('ARG1 in self.options')
+    off = f'{so.obj}.yielding := False'
+    nset = 0
+    for r in so.tail:
+        if r.outcome[0] == 'raise' or not r.conds.get(inopt):
+            continue
+        stored = any(f.kind == 'call' and is_call(f.node, 'set_value') for f in r.fx) or _calls_in_conditions(r, 'set_value')
+        if not stored:
+            continue
+        nset += 1
+        if not any(f.kind == 'store' and f.text == off for f in r.fx):
+            hidden = foreign_calls(r.fx, ('set_value', 'set_option', 'reset_prefixed_options', 'validate_value'))
+            if hidden or any(f.kind in ('store', 'augstore') and '.yielding' in f.text for f in r.fx):
+                raise Undecided(f'{so.qn}: cannot tell whether yielding is switched off on the path {r!r}')
+            ctx.violation(mod, so.qn, f'{so.obj}.yielding = False', 'on a path that stores the new value into the option object, yielding stays on: the lookup keeps returning the parent\'s value '
+                          'instead of the value just set (' + ' & '.join(('' if v else 'not ') + repr(a) for a, v in r.conds.items() if 'set_value' in repr(a) or a == inopt) + ')', so.fn, path=repr(r))
+            break
+    else:
+        ctx.ok(f'{so.qn}: storing into the option object always switches its yielding off ({nset} paths)')
+    ctx.floor('paths of set_option storing into the option object', nset, 1)
     # registration: the declared yield flag is normalised before the option becomes visible
     qn = 'OptionStore.add_project_option'
     fn = mod.func(qn)
@@ -1453,6 +1599,73 @@ def r8(ctx: RuleCtx) -> None:
     ctx.ok(f'no store into .yielding outside options.py ({k} files mention it)', nontrivial=False)
 
 
+# ---------------------------------------------------------------------------
+# R9  a value parked in pending_options is applied when its option appears (tested against the pop sentinel, not for truth)
+def r9(ctx: RuleCtx) -> None:
+    _signatures(ctx)
+    mod = ctx.repo.module(OPT)
+    n = 0
+    for qn, fn in mod.funcs().items():
+        if '#' in qn or not any(is_call(c, 'pop') and norm(c.func.value) == 'self.pending_options' for c in walk_no_nested(fn)):  # type: ignore[attr-defined]
+            continue
+        rows = S.Sym(fn).rows()
+        # the popped value (with its sentinel default) and what is done with it
+        pops = {}
+        for r in rows:
+            for f in r.fx:
+                if f.kind == 'let' and is_call(f.node[1], 'pop') and norm(f.node[1].func.value) == 'self.pending_options' and len(f.node[1].args) == 2 \
+                        and isinstance(f.node[1].args[1], ast.Constant) and f.node[1].args[1].value is None:
+                    pops[norm(f.node[1])] = f.node[1]
+        if not pops:
+            continue       # value dropped on purpose (Expr statement pop): nothing is promised
+        if len(pops) != 1:
+            raise Undecided(f'{qn}: several pending values are popped: {sorted(pops)}')
+        PV = next(iter(pops))
+        K = norm(pops[PV].args[0])
+        n += 1
+        is_none, truthy = A(f'{PV} is None'), A(PV)
+        apply = P(f'self.set_option({K}, {PV})')
+        napplied = ndropped = 0
+        bad = None
+        for r in rows:
+            if r.outcome[0] == 'raise' or not any(f.kind == 'let' and norm(f.node[1]) == PV for f in r.fx):
+                continue
+            calls = [f for f in r.fx if f.kind == 'call' and (is_call(f.node, 'set_option') or is_call(f.node, 'set_user_option')) and PV in f.text]
+            hidden = [f for f in foreign_calls(r.fx, ('set_option', 'set_user_option', 'pop', fn.name)) if PV in f.text]
+            if hidden:
+                raise Undecided(f'{qn}: the pending value is handed to {hidden[0].text}')
+            if calls and [f.text for f in calls] != [apply]:
+                raise Undecided(f'{qn}: pending value used in an unknown way: {[f.text for f in calls]}')
+            others = [a for a in r.conds if PV in repr(a) and a not in (is_none, truthy)]
+            if others:
+                raise Undecided(f'{qn}: the pending value is tested in an unknown way: {others}')
+            if calls:
+                napplied += 1
+                if r.conds.get(is_none) is True:
+                    bad = (r, f'{apply} runs on the path where nothing was pending (the value is the None sentinel), so real pending values take the other branch and are dropped')
+                    break
+                if r.conds.get(is_none) is not False and r.conds.get(truthy) is not True:
+                    raise Undecided(f'{qn}: the pending value is applied without a test on the path {r!r}')
+            else:
+                ndropped += 1
+                if r.conds.get(is_none) is True:
+                    continue
+                if r.conds.get(is_none) is False:
+                    bad = (r, f'a value that was pending (not None) is taken out of pending_options and not applied')
+                    break
+                if r.conds.get(truthy) is False and is_none not in r.conds:
+                    bad = (r, f'a pending value that is falsy (False, 0, "", []) is taken out of pending_options and dropped: the guard of {apply} tests its truth, '
+                              f'but None is the only "nothing pending" sentinel of the pop')
+                    break
+                raise Undecided(f'{qn}: the pending value is dropped for an unknown reason on the path {r!r}')
+        if bad is not None:
+            ctx.violation(mod, qn, f'if {PV}', bad[1], fn, path=repr(bad[0]))
+        else:
+            ctx.ok(f'{qn}: the value popped from pending_options is applied through set_option(key, value) exactly when it is not the None sentinel ({napplied} paths apply, {ndropped} had nothing pending)')
+        ctx.floor(f'{qn}: paths applying a pending value', napplied, 1)
+    ctx.floor('functions that take a value out of pending_options', n, 1)
+
+
 RULES = [
     Rule('C07.R1', 'top-level precedence: defaults < machine file < command line (values and prefix)', r1),
     Rule('C07.R2', 'subproject merge: write events in the documented eight-step order, augments kept', r2),
@@ -1462,4 +1675,5 @@ RULES = [
     Rule('C07.R6', 'buildtype expansion table, guard and command-line order', r6),
     Rule('C07.R7', 'prefix-dependent directory defaults', r7),
     Rule('C07.R8', 'a yielding option is linked only to a parent of exactly its own class', r8),
+    Rule('C07.R9', 'pending values are applied when their option appears', r9),
 ]
